@@ -88,6 +88,8 @@ type faultSrc struct {
 	mode   fmode // which calls fail and what a failing call returns
 	fired  bool
 	labels *[]label // if non-nil, every call is labelled
+	reqs   *[][2]int64 // if non-nil, (offset, length) of every call
+	prefixN int       // fmPrefix: bytes the failing call delivers
 }
 
 type label struct {
@@ -106,11 +108,12 @@ const (
 	fmHalf              // call k returns half of the bytes and err
 	fmFull              // call k returns all the bytes and err
 	fmOne               // call k returns one byte and err
+	fmPrefix            // call k returns the first faultSrc.prefixN bytes and err
 )
 
 var fmodes = []fmode{fmFrom, fmOnly, fmHalf, fmFull, fmOne}
 
-func (m fmode) String() string { return [...]string{"from", "only", "half", "full", "one"}[m] }
+func (m fmode) String() string { return [...]string{"from", "only", "half", "full", "one", "prefix"}[m] }
 
 func (f *faultSrc) arm(k int, m fmode) { f.n, f.failK, f.mode, f.fired = 0, k, m, false }
 
@@ -118,6 +121,9 @@ func (f *faultSrc) ReadAt(p []byte, off int64) (int, error) {
 	f.n++
 	if f.labels != nil {
 		*f.labels = append(*f.labels, classifyCaller())
+	}
+	if f.reqs != nil {
+		*f.reqs = append(*f.reqs, [2]int64{off, int64(len(p))})
 	}
 	if f.failK > 0 && (f.n == f.failK || (f.mode == fmFrom && f.n > f.failK)) {
 		f.fired = true
@@ -133,6 +139,8 @@ func (f *faultSrc) ReadAt(p []byte, off int64) (int, error) {
 			n = avail
 		case fmOne:
 			n = min(1, avail)
+		case fmPrefix:
+			n = min(f.prefixN, avail)
 		}
 		copy(p[:n], f.data[off:])
 		return n, errInj
